@@ -17,6 +17,19 @@ Workload
  B. seeded random sequences of 30 individual operations (writes, reads, adds, queries interleaved, so reads/queries are
     also exercised WITHOUT the per-state observation round of part A), bounds up to 6, judged step by step.
 
+ C. aggregate base types, fixed matrix (seed independent): containers of all four kinds whose declared base type is
+    itself an aggregate nested 1, 2 or 3 levels deep (2, 3, 4 levels in total; every combination of ARRAY/LIST/BAG/SET
+    over the levels, two bound families, all three innermost simple types - vf/c19_nest.base_types) and, per base type,
+    one candidate element per single-site type change (vf/c19_nest.mutants: the kind at each level x 3, the bounds at
+    each level, the innermost simple type, the nesting depth +-1, a bare simple value) plus elements of exactly the
+    declared type, each built by the real runtime and filled down to an innermost value (harness/c19_nest.py) with the
+    declaration objects either shared with the container's declaration or built separately.  Each candidate is stored
+    after a good element at the next position and over the good element, followed by reads, another good element, a
+    re-used element (duplicate) and all queries; judged step by step by the same model (vf/c19_ref: type_diff).  Also
+    aggregate-valued candidates for containers with a simple base type.
+ B'. a share of the random sequences of part B runs on containers with a random aggregate base type (depth 1..3, random
+    bounds per level) with random good / mutated / re-used aggregate elements.
+
 Divergence handling: a refusal of an operation that must be accepted leaves the model state unchanged and the walk
 continues (the real state is whatever the fingerprint says); an observation mismatch is recorded and the walk continues;
 an ACCEPTED operation that must be refused is recorded and that branch is not continued (the model has no state for
@@ -33,6 +46,7 @@ import tempfile
 
 from .. import build, run
 from .. import c19_ref as R
+from .. import c19_nest as N
 
 HERE = os.path.dirname(os.path.dirname(os.path.dirname(os.path.abspath(__file__))))
 DRIVER = os.path.join(HERE, 'harness', 'c19_drv.py')
@@ -197,7 +211,16 @@ def repro_script(e):
              'def show(label, f):', '    try: print(label, "->", repr(f()))',
              '    except Exception as ex: print(label, "-> raises", type(ex).__name__, ex)',
              'def setitem(x, i, v): x[i] = v']
-    args = '%d, %r, %s' % (c.b1, c.b2, c.base)
+    def vexpr(v):
+        if isinstance(v[0], str):
+            return '%s(%r)' % (v[0], v[1])
+        return 'B.element(%r, %r, %r)' % (N.unt(R.tt(v[0])), v[1], v[2])
+    nested = R.is_agg(c.base) or any(o[0] in ('set', 'add') and not isinstance(o[-1][0], str) for o in list(e['path']) + [e['op']])
+    if nested:
+        lines = ['# C19 replay: PYTHONPATH=<repo>/src/exp2python/python python3 repro.py',
+                 '# ---- element/declaration builder (verbatim copy of /verif/harness/c19_nest.py)'] + N.builder_source().split('\n') + \
+                ['# ---- the case'] + lines[1:] + ['B = Builder(%r)    # declaration of the base type: %s' % (N.unt(c.base), R.type_text(c.base))]
+    args = '%d, %r, %s' % (c.b1, c.b2, 'B.base.obj' if nested else c.base)
     if c.kind == 'ARRAY':
         args += ', UNIQUE=%r, OPTIONAL=%r' % (c.unique, c.optional)
     elif c.kind == 'LIST':
@@ -208,11 +231,11 @@ def repro_script(e):
     lines.append('x = %s(%s)' % (c.kind, args))
     for op in list(e['path']) + [e['op']]:
         if op[0] == 'set':
-            lines.append('show(%r, lambda: setitem(x, %d, %s(%r)))' % (R.op_text(op), op[1], op[2][0], op[2][1]))
+            lines.append('show(%r, lambda: setitem(x, %d, %s))' % (R.op_text(op), op[1], vexpr(op[2])))
         elif op[0] == 'get':
             lines.append('show(%r, lambda: x[%d])' % (R.op_text(op), op[1]))
         elif op[0] == 'add':
-            lines.append('show(%r, lambda: x.add(%s(%r)))' % (R.op_text(op), op[1][0], op[1][1]))
+            lines.append('show(%r, lambda: x.add(%s))' % (R.op_text(op), vexpr(op[1])))
         else:
             lines.append('show(%r, lambda: x.%s())' % (R.op_text(op), op[1]))
     lines.append('# expected for the last line: %s (%s)' % (e['exp'].verdict, e['exp'].reason))
@@ -312,6 +335,8 @@ def part_a(chk, depth, div):
 def random_cfg(rng):
     kind = rng.choice(R.KINDS)
     base = rng.choice(R.BASES)
+    if rng.random() < .3:
+        base = N.random_base(rng)
     if kind == 'ARRAY':
         b1 = rng.randint(-2, 3)
         b2 = b1 + rng.choice([0, 1, 2, 3, 5])
@@ -321,7 +346,9 @@ def random_cfg(rng):
     return R.Cfg(kind, b1, b2, kind == 'LIST' and rng.random() < .5, False, base)
 
 
-def random_value(c, rng, wrong=False):
+def random_value(c, rng, wrong=False, ctx=None):
+    if R.is_agg(c.base):
+        return N.random_element(c, rng, ctx, wrong)
     if wrong:
         return list(rng.choice(WRONG[c.base]))
     k = rng.randrange(7)
@@ -330,25 +357,26 @@ def random_value(c, rng, wrong=False):
     return [c.base, {'INTEGER': k + 3, 'REAL': k + 0.25, 'STRING': 'v%d' % k}[c.base]]
 
 
-def candidate_op(c, rng):
+def candidate_op(c, rng, ctx=None):
     r = rng.random()
+    pw = .3 if R.is_agg(c.base) else .1
     if c.kind in ('ARRAY', 'LIST'):
         lo = c.b1 - 1 if c.kind == 'ARRAY' else -1
         hi = (c.b2 if c.b2 is not None else c.b1 + 4) + 1
         if r < .55:
-            return ['set', rng.randint(lo, hi), random_value(c, rng, rng.random() < .1)]
+            return ['set', rng.randint(lo, hi), random_value(c, rng, rng.random() < pw, ctx)]
         if r < .8:
             return ['get', rng.randint(lo, hi)]
     elif r < .7:
-        return ['add', random_value(c, rng, rng.random() < .1)]
+        return ['add', random_value(c, rng, rng.random() < pw, ctx)]
     return ['q', rng.choice(R.QUERIES)]
 
 
 def norm_op(op):
     if op[0] == 'set':
-        return ('set', op[1], tuple(op[2]))
+        return ('set', op[1], R.val(op[2]))
     if op[0] == 'add':
-        return ('add', tuple(op[1]))
+        return ('add', R.val(op[1]))
     return tuple(op)
 
 
@@ -359,16 +387,24 @@ def gen_sequence(chk, c, rng, length):
     outcomes."""
     st = R.initial(c)
     ops = []
+    ctx = dict(next=1, used=[])
+    keep_refused = .9 if R.is_agg(c.base) else .4
     while len(ops) < length:
         for _try in range(8):
-            op = candidate_op(c, rng)
+            op = candidate_op(c, rng, ctx)
             exp = R.judge(c, st, norm_op(op))
             if exp.verdict == 'refuse' and R.is_mutation(op):
                 if chk.is_known(R.finding_key(c, exp, 'accepted', op)):
                     chk.count('part B: candidate operations masked (open finding: forbidden operation accepted)')
                     continue
-                if rng.random() < .6:
+                if rng.random() >= keep_refused:
                     continue
+            if R.separately_declared(c, exp, op) and R.type_depth(c.base) >= 2 and \
+                    chk.is_known(R.finding_key(c, exp, 'refused with TypeError', op)):
+                # documented mask: a right-typed element whose nested declaration was built separately is refused (open
+                # finding, demonstrated by part C on every run); the mask vanishes with the finding
+                chk.count('part B: candidate operations masked (open finding: separately declared element refused)')
+                continue
             break
         else:
             op = ['q', 'get_size']
@@ -379,7 +415,7 @@ def gen_sequence(chk, c, rng, length):
     return ops
 
 
-def judge_sequence(chk, c, ops, res, div=None, count=True):
+def judge_sequence(chk, c, ops, res, div=None, count=True, part='B'):
     """-> first divergence key that stops the sequence or None; records all divergences in div."""
     ce = R.construct_expect(c)
     got = R.compare(ce, ('construct',), res['construct'])
@@ -387,13 +423,16 @@ def judge_sequence(chk, c, ops, res, div=None, count=True):
     if got:
         keys.append(R.finding_key(c, ce, got))
         if div is not None:
-            div.add(c, [], ('construct',), ce, res['construct'], got, 'B')
+            div.add(c, [], ('construct',), ce, res['construct'], got, part)
     if res['construct'][0] == 'x':
         return keys
     st = R.initial(c)
     for n, (op, out) in enumerate(zip(ops, res['outs'])):
         t = norm_op(op)
         exp = R.judge(c, st, t)
+        if out[0] == 'b':
+            chk.inconc('%s: element of %s could not be built by the runtime: %s' % (R.cfg_text(c), R.op_text(op), out[2]))
+            break
         got = R.compare(exp, t, out)
         if count:
             chk.ev()
@@ -402,7 +441,7 @@ def judge_sequence(chk, c, ops, res, div=None, count=True):
         if got:
             keys.append(R.finding_key(c, exp, got, op))
             if div is not None:
-                div.add(c, ops[:n], op, exp, out, got, 'B')
+                div.add(c, ops[:n], op, exp, out, got, part)
             if accepted and R.is_mutation(t):
                 if count:
                     chk.count('part B: sequences cut after an accepted forbidden operation')
@@ -449,7 +488,32 @@ def part_b(chk, nseq, length, div):
         judge_sequence(chk, c, ops, r, div)
         chk.seen(hash((c, json.dumps(ops))))
         chk.tag('random walk ' + c.kind)
+        if R.is_agg(c.base):
+            chk.tag('random walk, aggregate base type nested %d deep' % R.type_depth(c.base))
     return cases, res
+
+
+# ------------------------------------------------------------------------------- part C: aggregate base types, fixed matrix
+def part_c(chk, div):
+    mat = N.matrix()
+    res = run_jobs(chk, [dict(mode='seq', cfg=R.cfg_json(c), ops=ops) for (c, lab, mode, place, ops) in mat], nbatch=16, timeout=300)
+    shapes = set()
+    for (c, lab, mode, place, ops), r in zip(mat, res):
+        if r is None:
+            continue
+        judge_sequence(chk, c, ops, r, div, part='C')
+        chk.seen(hash(('C', c, lab, mode, place, json.dumps(ops[1]))))
+        shapes.add((c.kind, c.base))
+        d = R.type_depth(c.base)
+        chk.tag('part C: base type nested %d deep (%d levels with the container)' % (d, d + 1) if d else 'part C: simple base type, aggregate candidate')
+        chk.tag('part C candidate: ' + lab)
+        chk.tag('part C: %s container' % c.kind)
+        if mode != '-':
+            chk.tag('part C: declaration objects ' + mode)
+    chk.extra['part_C_sequences'] = len(mat)
+    chk.extra['part_C_container_x_base_type_shapes'] = len(shapes)
+    chk.extra['part_C_base_types'] = len(set(b for _k, b in shapes if R.is_agg(b)))
+    return mat, res
 
 
 # --------------------------------------------------------------------------------------------------------------- main
@@ -475,6 +539,7 @@ def main(chk):
     div = Divergences()
     ncfg = part_a(chk, depth, div)
     keys_a = set(div.by_key)
+    part_c(chk, div)
     cases, res = part_b(chk, nseq, 30, div)
 
     for key in sorted(div.by_key):
@@ -516,12 +581,22 @@ def main(chk):
              'reaching the same (real __dict__ fingerprint, model state) pair merged; in every reached pair every read '
              'x[i] and every size/index/bound/uniqueness query is judged, along every edge the accept/refuse outcome. '
              'exhaustive=true refers to this part. part B: %d seeded random sequences of 30 interleaved operations '
-             '(bounds up to 6) judged step by step. evaluations = judged operation outcomes; a distinct non-trivial case '
-             '= a distinct (configuration, real state, model state) pair reached by >= 1 operation, or one random sequence.'
-             % (depth, ncfg, nseq),
+             '(bounds up to 6; about 30%% of them on containers with a random aggregate base type nested 1..3 deep and '
+             'good / single-site mutated / re-used aggregate elements) judged step by step. part C (fixed matrix, seed '
+             'independent): %d operation sequences over %d (container kind, aggregate base type) shapes - %d base types '
+             'nested 1, 2 and 3 deep, every kind combination - each around one candidate element that differs from the '
+             'declared base type at exactly one site (kind per level, bounds per level, innermost simple type, nesting depth) '
+             'or is of the declared type (declaration objects shared / built separately). evaluations = judged operation outcomes; a distinct non-trivial case '
+             '= a distinct (configuration, real state, model state) pair reached by >= 1 operation, one random sequence, or one '
+             '(container, base type, candidate type, declaration mode, position) of part C.'
+             % (depth, ncfg, nseq, chk.extra['part_C_sequences'], chk.extra['part_C_container_x_base_type_shapes'],
+                chk.extra['part_C_base_types']),
         assumptions=['the behaviour of an aggregate object is a function of its instance __dict__ (pure Python, no module state); '
                      'replaying a path on a fresh object reproduces the fingerprint (checked for every state)',
                      'refusal = any of IndexError/TypeError/AssertionError/ValueError/KeyError; the exception class is not judged',
+                     'aggregate-valued elements: an element is of the declared base type iff kind, ARRAY bounds, nesting depth and '
+                     'innermost simple type agree at every level; LIST/BAG/SET bounds of inner levels, INTEGER for REAL and inner '
+                     'UNIQUE/OPTIONAL flags are not judged; elements with different tokens hold different innermost values',
                      'sparse LIST writes, the lower bound as minimum element count, None/int/INTEGER-into-REAL values and '
                      'indexing of BAG/SET are not judged',
                      'branches are not continued past an accepted operation that EXPRESS forbids'],
